@@ -234,3 +234,26 @@ CHECKS['C07'] = dict(level='proof',
         'in magnitude on a tie), which the property allows. Not separately decided: monotonicity (a consequence of round-half-up and the carry into the exponent), the lane plumbing of packHalf2x16/4x16/packHalf<L> and the hvec types (C06).',
    technique='exhaustive case analysis over symbolic bit-pattern shapes: substitution of each shape into the lane term of the instantiated LLVM IR and normalisation to a bit placement (known-bits folding of compares, shifts and constant additions)')
 NOT_APPLICABLE.pop('C07', None)
+
+
+# ---- amendments after the later strengthening rounds (text appended to the claims above) ----
+def _amend(pid, text='', note=''):
+    CHECKS[pid]['text'] = CHECKS[pid]['text'].rstrip() + ' ' + text if text else CHECKS[pid]['text']
+    CHECKS[pid]['note'] = CHECKS[pid]['note'].rstrip() + ' ' + note if note else CHECKS[pid]['note']
+
+_amend('C01', 'findNSB (data-dependent loop) is compared with its loop peeled in both kernels; integer lanes whose terms differ are refuted only with an explicit bit-pattern witness.')
+_amend('C03', 'Padding independence: no float result lane of the intrinsic build is computed from the hidden fourth lane of an aligned vec3 operand.')
+_amend('C04', 'Every quaternion kernel is additionally compared under GLM_FORCE_QUAT_DATA_XYZW (constructor argument order); rotation(u, -u): the vector part is unit and perpendicular to u on every arm and the guess axis handed to normalize() cannot vanish.')
+_amend('C05', 'findLSB / findMSB are decided for every value by case analysis on the position of the deciding bit (all other bits symbolic), including the GLSL rule for negative arguments; the scalar overloads and the aligned vec4 forms are also instantiated in the intrinsic (AVX2) configuration.',
+       'Superseded: findLSB / findMSB are now decided (shape analysis).')
+_amend('C08', 'The dispatch rule also covers the half-suffixed forms whose explicit half differs from the configuration (e.g. perspectiveFovZO under LEFT_HANDED only).')
+_amend('C09', 'gtx axisAngle() on the exact half turn 2 n n^T - I returns +-n (unit, parallel) and pi on every branch.')
+_amend('C11', 'roundEven returns the even neighbour on every tie (x = +-(2k + 1/2), +-(2k + 3/2) with k an integer symbol); gtx/common fmod is std::fmod per component in the element type, openBounded / closeBounded, gtx/compatibility lerp, saturate, isfinite equal their definitions.')
+_amend('C13', 'The spin-count overload slerp(x, y, a, k) is decided like slerp (end points with sin(k pi) = 0, unit length, arc position a (theta + k pi)) and equals slerp for k = 0; every function returns the same components under GLM_FORCE_QUAT_DATA_WXYZ and GLM_FORCE_QUAT_DATA_XYZW; residuals on the spherical arm are refuted with rational-trigonometry witnesses.')
+_amend('C14', 'floatDistance / float_distance is |key(x) - key(y)| on the monotone integer scale for every sign combination (magnitudes symbolic); epsilon and ULP equal also for non-square matrices.',
+       'Superseded: floatDistance is now decided.')
+_amend('C15', 'Besides the clang view, the language-level configurations are analysed in the g++ preprocessor view (standard headers first, then __clang__ undefined and __GNUC__ = 12 before the GLM headers), which is what compiles the !GLM_HAS_INITIALIZER_LISTS / pre-C++11 arms; the default-configuration kernels of C04 C05 C06 C08 C09 C11 C13 C18 C19 are part of the corpus.')
+_amend('C17', 'Conversion chains that differ from the prescribed static_cast are refuted with a bit-pattern witness.')
+_amend('C18', 'gtc log2, gtx nlz and lowestBitValue by shape analysis; gtx pow(x, n) for constant n = 0..4 as polynomial identities; unsigned mod; factorial on its whole domain 0..12; an incomplete smear ladder is refuted with the witness x = 2^j + 1.',
+       'Second known finding: gtx pow(negative, 0) returns -1 (asserted by the repository test).')
+_amend('C20', 'Separate vector overloads are part of the corpus; conditions going through bit ladders (1 << findMSB(x)) are discharged by case analysis on the highest set bit.')
